@@ -47,7 +47,7 @@ func init() {
 			"reading used for a hook whose creation is refused: it never existed, so no policy deletion is expected for it; hooks of the same event that already succeeded are still covered by their hook-succeeded policy (ref.go: earlierSucceededCovered=true)",
 			"pre-X hooks precede the first mutation of a release resource and post-X hooks follow the last one and the readiness wait: taken as the definition of the lifecycle events",
 		},
-		RequiredFloors: []string{"order:weight-decides", "order:name-breaks-tie", "order:tie-against-kind-order", "order:weights-more-than-2^63-apart", "uninstall:keep-history-post-hook-failed",
+		RequiredFloors: []string{"order:weight-decides", "order:name-breaks-tie", "order:tie-against-kind-order", "order:weights-more-than-2^63-apart", "spelling:policy-list-with-blanks", "spelling:policy-not-first-decides", "spelling:event-list-with-blanks", "uninstall:keep-history-post-hook-failed",
 			"rollback-after-failed-upgrade", "rollback-after-second-upgrade-failed", "rollback:leftover-of-failed-upgrade-deleted-first", "disabled:atomic-upgrade-undone", "disabled:atomic-install-undone", "stale:deleted-first", "stale:conflict", "policy:succeeded-delete", "policy:failed-delete",
 			"policy:succeeded-after-later-wait-failure", "policy:kept", "gate:pre-failed", "gate:post-failed", "gate:later-hook-skipped", "disabled", "fault:create-rejected", "fault:wait", "hook-in-both-phases",
 			"op:install", "op:upgrade", "op:rollback", "op:uninstall"},
@@ -124,6 +124,74 @@ func families(thorough bool) []hookSet {
 			for _, k := range kinds {
 				for _, pol := range policySets {
 					out = append(out, hookSet{Family: "F1r", Hooks: []hx.HookSpec{mk("h1", k, []string{pu + "-upgrade", pr + "-rollback"}, 0, pol)}})
+				}
+			}
+		}
+	}
+	// Fs / Fse: the SPELLING of the list-valued annotations. hx renders a list with
+	// strings.Join(elements, ","), so blanks and case are put into the elements.
+	// Fs: one hook, every ordered delete-policy list of length 2 and 3 over
+	// {before-hook-creation, hook-succeeded, hook-failed} x separator {"," ", " " ," " , "}
+	// x {lower case, Mixed-Case}. Fse: the event list spelt the same ways (all four
+	// events of a phase, forwards and backwards; and upgrade+rollback only).
+	spell := func(list []string, sep int, mixed bool) []string {
+		out := make([]string, len(list))
+		for i, e := range list {
+			if mixed {
+				parts := strings.Split(e, "-")
+				for j, w := range parts {
+					parts[j] = strings.ToUpper(w[:1]) + w[1:]
+				}
+				e = strings.Join(parts, "-")
+			}
+			if i > 0 && (sep == 1 || sep == 3) {
+				e = " " + e // blank after the comma
+			}
+			if i < len(list)-1 && (sep == 2 || sep == 3) {
+				e += " " // blank before the comma
+			}
+			out[i] = e
+		}
+		return out
+	}
+	p3 := []string{"before-hook-creation", "hook-succeeded", "hook-failed"}
+	var orders [][]string
+	for i := range p3 {
+		for j := range p3 {
+			if i != j {
+				orders = append(orders, []string{p3[i], p3[j]})
+			}
+		}
+	}
+	for i := range p3 {
+		for j := range p3 {
+			for k := range p3 {
+				if i != j && j != k && i != k {
+					orders = append(orders, []string{p3[i], p3[j], p3[k]})
+				}
+			}
+		}
+	}
+	for _, p := range phases {
+		for _, k := range kinds {
+			for _, o := range orders {
+				for sep := 0; sep < 4; sep++ {
+					for _, mixed := range []bool{false, true} {
+						out = append(out, hookSet{Family: "Fs", Hooks: []hx.HookSpec{mk("h1", k, phaseEvents(p), 0, spell(o, sep, mixed))}})
+					}
+				}
+			}
+		}
+	}
+	for _, p := range phases {
+		ev := phaseEvents(p)
+		rev := []string{ev[3], ev[2], ev[1], ev[0]}
+		for _, list := range [][]string{ev, rev, {p + "-upgrade", p + "-rollback"}, {p + "-rollback", p + "-upgrade"}} {
+			for sep := 0; sep < 4; sep++ {
+				for _, mixed := range []bool{false, true} {
+					for _, pol := range [][]string{nil, {"hook-succeeded"}} {
+						out = append(out, hookSet{Family: "Fse", Hooks: []hx.HookSpec{mk("h1", "Job", spell(list, sep, mixed), 0, pol)}})
+					}
 				}
 			}
 		}
